@@ -735,7 +735,10 @@ func callOnce(job *Job, reg *Reg, fp *FuncPlan, fn reflect.Value, val string, se
 	// slice aliasing by mutation (C16): write through every source slice element and re-dump the destination
 	if job.SliceMutate && fp.Judge {
 		for _, e := range exps {
-			if e.item.Kind != "slice" || !e.run || e.val.Len() == 0 {
+			if !e.run || !e.val.IsValid() || e.val.Kind() != reflect.Slice || e.val.IsNil() || e.val.Len() == 0 {
+				continue
+			}
+			if e.item.Kind != "slice" && !(e.item.Kind == "assign" && e.leafT.Kind() == reflect.Slice) {
 				continue
 			}
 			sub0 := DumpValue(ids, "x", mustLeaf(dstV, e.item.Path))
